@@ -37,7 +37,7 @@ def cases(tier, seed):
     rng = random.Random('C12|%d' % seed)
     T = tier == 'thorough'
     cs = []
-    nstruct = 60 if not T else 500
+    nstruct = 90 if not T else 500
     k = 2 if not T else 6
     for i in range(nstruct):
         cls = ['spd', 'dd', 'lap'][i % 3]
